@@ -120,6 +120,16 @@ def run_check(prop, tier, seed, workers=None, budget=None, keep=False):
         if not keep:
             shutil.rmtree(work, ignore_errors=True)
 
+    if os.environ.get("VF_LINECOV"):
+        # diagnostic only: which library lines the workload of this check executed
+        hit = {}
+        for r in results:
+            for fn, ls in r.get("lines_hit", {}).items():
+                hit.setdefault(fn, set()).update(ls)
+        os.makedirs(os.environ["VF_LINECOV"], exist_ok=True)
+        with open(os.path.join(os.environ["VF_LINECOV"], "%s.%s.json" % (prop, tier)), "w") as f:
+            json.dump({k: sorted(v) for k, v in hit.items()}, f)
+
     # ------------------------------------------------------------ aggregate
     known = load_known()
     counters, classes, discarded, inconc, anchors, extra = {}, {}, {}, {}, {}, {}
